@@ -444,6 +444,71 @@ Section Alg.
       rewrite seq_nth by exact Ht. reflexivity.
   Qed.
 
+  (* a parameter vector that is too short is rejected (a block receives a short slice) *)
+  Lemma pyslice_length : forall La i n, length (pyslice (seq 0 La) i n) = Nat.min n (La - i).
+  Proof. intros. unfold pyslice. rewrite firstn_length, skipn_length, seq_length. reflexivity. Qed.
+
+  Lemma mapM_flat_short : forall La ser i,
+      (forall ib, In ib ser -> ok_kind (snd ib) = true) ->
+      i <= La -> La < i + sum_params ser ->
+      mapM gate_prop (flat_gates (seq 0 La) ser i) = None.
+  Proof.
+    intros La ser. induction ser as [|[id b] r IH]; intros i Hok Hi Hlt.
+    - cbn in Hlt. lia.
+    - rewrite sum_params_cons in Hlt. cbn [snd] in Hlt.
+      assert (Hb : ok_kind b = true) by (apply (Hok (id, b)); left; reflexivity).
+      assert (Hr : forall ib, In ib r -> ok_kind (snd ib) = true) by (intros ib Hin; apply Hok; right; exact Hin).
+      destruct (Nat.le_gt_cases (i + n_params b) La) as [Hfit|Hover].
+      + (* this block fits: it evaluates, the failure is further on *)
+        assert (Hhead : mapM gate_prop (flat_gates (seq 0 La) [(id, b)] i) = Some (props_from [(id, b)] i)).
+        { apply mapM_flat.
+          - intros ib [<-|[]]. exact Hb.
+          - rewrite sum_params_cons. cbn [snd sum_params fold_right]. lia. }
+        change ((id, b) :: r) with ([(id, b)] ++ r). rewrite flat_gates_app.
+        rewrite sum_params_cons. cbn [snd sum_params fold_right]. rewrite Nat.add_0_r.
+        assert (Htail : mapM gate_prop (flat_gates (seq 0 La) r (i + n_params b)) = None)
+          by (apply IH; [exact Hr|exact Hfit|lia]).
+        revert Hhead Htail. generalize (flat_gates (seq 0 La) [(id, b)] i) as g1.
+        generalize (flat_gates (seq 0 La) r (i + n_params b)) as g2.
+        generalize (props_from [(id, b)] i) as p1.
+        intros p1 g2 g1. revert p1. induction g1 as [|g g1 IHg]; intros p1 H1 H2.
+        * cbn [app]. exact H2.
+        * cbn [app mapM] in *. destruct (gate_prop g); [|discriminate].
+          destruct (mapM gate_prop g1) as [ys|] eqn:E; [|discriminate].
+          rewrite (IHg ys eq_refl H2). reflexivity.
+      + (* this block receives a short slice *)
+        cbn [flat_gates].
+        destruct b as [k ini]. unfold ok_kind in Hb. cbn [b_kind] in Hb.
+        destruct k as [ | m | | na | ]; try discriminate.
+        * change (n_params (mkBlock KHam ini)) with 1 in *.
+          cbn [is_native b_kind Nat.ltb Nat.leb mapM Vqa.gate_prop Vqa.get_unitary].
+          rewrite pyslice_length. change (n_params (mkBlock KHam ini)) with 1.
+          replace (Nat.min 1 (La - i)) with 0 by lia. reflexivity.
+        * destruct m as [|m]; [discriminate|].
+          change (n_params (mkBlock (KPH (S m)) ini)) with (S m) in *.
+          cbn [is_native b_kind Nat.ltb Nat.leb mapM Vqa.gate_prop Vqa.get_unitary].
+          rewrite pyslice_length. change (n_params (mkBlock (KPH (S m)) ini)) with (S m).
+          destruct (Nat.min (S m) (La - i) =? S m) eqn:E; [apply Nat.eqb_eq in E; lia|]. reflexivity.
+        * change (n_params (mkBlock KUnit ini)) with 0 in *. lia.
+        * change (n_params (mkBlock (KNative na) ini)) with 0 in *. lia.
+  Qed.
+
+  Theorem short_vector_rejected : forall bs layers La,
+      1 <= layers -> forallb ok_kind bs = true ->
+      La < free_parameters_num bs layers ->
+      evaluate bs layers (seq 0 La) = None /\
+      forall indices, compute_jac bs layers (seq 0 La) indices = None.
+  Proof.
+    intros bs layers La Hl Hok Hlt.
+    assert (Hprops : propagators bs layers (seq 0 La) = None).
+    { unfold Vqa.propagators. rewrite construct_flat by exact Hl.
+      apply mapM_flat_short; [apply series_ok; exact Hok|lia|].
+      rewrite series_sum_params by exact Hl. exact Hlt. }
+    split.
+    - unfold Vqa.evaluate. rewrite Hprops. reflexivity.
+    - intros indices. unfold Vqa.compute_jac, compute_jac_with. rewrite Hprops. reflexivity.
+  Qed.
+
   (* --------------------------------------------------------------------------------------- *)
   (* the Jacobian loop                                                                         *)
   (* --------------------------------------------------------------------------------------- *)
